@@ -402,8 +402,14 @@ Lemma parse_declaration_B : forall t, B (S (length t)) (parse_declaration t).
 Proof. intros t; unfold parse_declaration; cbv zeta; bsolve. Qed.
 #[export] Hint Resolve parse_declaration_B | 1 : bdb.
 
+Lemma semi_item_B : forall t, B (S (length t)) (semi_item t).
+Proof. intros t; unfold semi_item; bsolve. Qed.
+#[export] Hint Resolve semi_item_B | 1 : bdb.
+Lemma semi_ws_B : forall t, B (S (length t)) (semi_ws t).
+Proof. intros t; unfold semi_ws; bsolve. Qed.
+#[export] Hint Resolve semi_ws_B | 1 : bdb.
 Lemma semi_sep_B : forall t, B (S (length t)) (semi_sep t).
-Proof. intros t; unfold semi_sep; bsolve. Qed.
+Proof. intros t; unfold semi_sep; apply many1_B; intros t0; apply semi_item_B. Qed.
 #[export] Hint Resolve semi_sep_B | 1 : bdb.
 
 Lemma parse_rules_B : forall t, B (S (length t)) (parse_rules t).
